@@ -49,6 +49,57 @@ CHECKS = {
     ),
 }
 
+SERVER_NOTE = ("Trusted: TLC; the harness driver (in-process PolicyClient, gates). The MPC inside a policy run is the real engine "
+               "but is abstract in the spec (start / complete / fail). Queue capacities (10) are not modelled. The HTTP layer is "
+               "bound only at the PolicyStateHandle boundary it wraps.")
+SERVER_TECH = ("TLA+ spec ServerCore model-checked by TLC (MC_Server) + TLC behaviours replayed gate by gate on the real "
+               "PolicyState actors + trace validation (Trace_Server) + TLC property monitor (Mon_Server)")
+CHECKS.update({
+    "C13": dict(
+        category="model_checking", design_ref="DESIGN.md 4 C13",
+        text="ServerCore.tla models every actor of state.rs at the grain of the harness gates (command dequeued, RPC delivery, "
+             "permit acquisition, spawned constants/MPC task first poll, output notification). TLC explores all arrival orders and "
+             "RPC delivery orders for n=2 (every leader, constants none/some/all, destination present/absent) and n=3 "
+             "configurations, two computations sharing a semaphore, with safety invariants and the liveness property "
+             "<>[]HappyEnd under fairness. TLC behaviours are replayed as scripts on the real actors (real compile, real mpc), "
+             "seeded random gate schedules add runs; every log must be a behaviour of ServerCore (all observable fields compared "
+             "after every step) and is judged by Mon_Server: schedule Ok, exactly one result equal to the clear-text value, "
+             "all stopped, permits back.",
+        note=SERVER_NOTE, technique=SERVER_TECH),
+    "C14": dict(
+        category="model_checking", design_ref="DESIGN.md 4 C14",
+        text="Stray commands (duplicate schedule, run/consts before validation, validate in a wrong state, MPC message with an "
+             "out-of-range sender or before scheduling) are an action of ServerCore enabled at every point; TLC checks NoPanic, "
+             "StraysRejected and that the run still ends like a fault-free run. On the real code each stray kind is injected after "
+             "every k-th step of a base run on every actor (sampled in quick), plus TLC behaviours and random runs; Mon_Server "
+             "requires an error answer, no panicked actor task and the undisturbed outcome.",
+        note=SERVER_NOTE, technique=SERVER_TECH),
+    "C15": dict(
+        category="model_checking", design_ref="DESIGN.md 4 C15",
+        text="cancel() is an API action enabled at every point; tokio Notify semantics (stored permit, registered waiter, select) "
+             "are modelled explicitly. TLC checks: after cancel Ok the actor is stopped, exactly one notification for a party that "
+             "knew its destination, nothing afterwards, permit returned; cancel always returns (liveness). On the real code cancel "
+             "is injected after every k-th step of a base run on every actor (current-thread runtime, and a sample on the "
+             "multi-thread runtime), plus TLC behaviours with a cancel budget.",
+        note=SERVER_NOTE, technique=SERVER_TECH),
+    "C16": dict(
+        category="model_checking", design_ref="DESIGN.md 4 C16",
+        text="Program-hash mismatch at a follower (n=2,3), leader mismatch at a follower (n=3), ill-typed program at follower or "
+             "leader: TLC explores all interleavings (both arrival orders of validate vs schedule) with invariants: no MPC "
+             "message, no Ok result, schedule of the offending follower and of the leader end with an error. The same scenarios "
+             "run on the real actors (TLC behaviours + random schedules) and are judged by Mon_Server (MPC messages are counted "
+             "at the in-process client).",
+        note=SERVER_NOTE, technique=SERVER_TECH),
+    "C17": dict(
+        category="model_checking", design_ref="DESIGN.md 4 C17",
+        text="Several computations per party share one semaphore in ServerCore; one RPC failure can be injected into any single "
+             "validate/run/consts call, cancels are mixed in. TLC checks exact permit accounting, the concurrency bound, that all "
+             "permits are back once all policies have ended, and that a failed call ends the policy at the caller (with an error "
+             "notification). Real runs with injected failures (1..3 computations, concurrency 1..2, mixed leaders) are validated "
+             "against the spec and judged by Mon_Server using Semaphore::available_permits after every step.",
+        note=SERVER_NOTE, technique=SERVER_TECH),
+})
+
 NA = {}
 
 
